@@ -25,6 +25,10 @@ import re
 _COMP = re.compile(r"^Comp(\d+)\((\d)\)$")
 
 
+class Infeasible(Exception):
+    pass
+
+
 class Gap:
     def __init__(self, kind, table, event, config, cell, msg):
         self.kind, self.table, self.event, self.config, self.cell, self.msg = kind, table, event, config, cell, msg
@@ -52,7 +56,7 @@ def _events(root):
             tables.add(s.table)
     refs = shared.get("refs", {})
     for rid, r in refs.items():
-        if "loops" not in r or rid in fed:
+        if "loops" not in r or rid in fed or r.get("view_only"):
             continue
         evs.append(dict(seq=rid, kind="r", table=r["table"], index=r["index"], loops=r["loops"], loop_ids=r["loop_ids"], func=r["func"], node=r["node"]))
     by_id = {t.id: t for t in tables}
@@ -265,6 +269,10 @@ def _ranges(index, env, sizes, axes, what, gaps, ev, cfg):
         if ix.kind in ("const", "var"):
             v = _ival(ix.value, env)
             if v < 0 or v >= n:
+                if ix.kind == "const" and v >= n:
+                    # a literal index beyond the extent raises IndexError in numpy: this size assignment is outside the function's
+                    # domain (e.g. a derivative table asked for order 0), not a silent defect
+                    raise Infeasible()
                 gaps.append(Gap("range", ev["table"], ev, cfg, (k, v, n), f"{what} index `{ix.text}` = {v} on axis {k} of extent {n}"))
                 return None
             out.append(range(v, v + 1))
@@ -559,7 +567,11 @@ def check(root, bound=3, max_configs=200, max_cells=60000):
                         good[t].add(cell)
                     else:
                         good[t].discard(cell)
-        run(tree, dict(env0))
+        try:
+            run(tree, dict(env0))
+        except Infeasible:
+            n_cfg -= 1
+            continue
         for g in gaps_cfg:
             key = (g.kind, id(g.event["node"]))
             if key not in seen:
